@@ -15,6 +15,7 @@
 -/
 import Hv.Patch.OpsWf
 import Hv.Patch.Untouched
+import Hv.Patch.LeafBytes
 import Hv.Patch.NumLemmas
 
 namespace Hv.C13
@@ -210,6 +211,17 @@ theorem untouched_bytes {cfg : Cfg} {t t' : Node} {op : Op} {segs : List Seg}
 
 /-- a leaf is written out verbatim -/
 theorem leaf_bytes_verbatim (raw : Bytes) : serialize (.leaf raw) = raw := by rw [serialize]
+
+/-- The bytes themselves: a leaf of the parsed body that lies off the op's path is a slice of the
+    input body, is still the leaf at that position after the op, and appears verbatim in the
+    serialised result. -/
+theorem untouched_leaf_bytes {cfg : Cfg} {body : Bytes} {t t' : Node} {op : Op} {segs : List Seg}
+    (hp : parse body = .ok t) (h : applyOp cfg t op segs = .ok t')
+    {q : List Nat} {raw : Bytes} (hq : Diverge (sitePos segs t) q) (hl : getAt t q = some (.leaf raw)) :
+    raw <:+: body ∧ getAt t' q = some (.leaf raw) ∧ raw <:+: serialize t' := by
+  have h1 := (untouched_bytes h q hq).1
+  rw [hl] at h1
+  exact ⟨parse_leaf_infix hp hl, h1, leaf_infix_serialize t' q raw h1⟩
 
 /-- non-vacuity: in `{"a": {"x": 1}, "b": 2}` the path `a.x` has site `[0]`; position `[1]` (b)
     diverges from it -/
